@@ -2,7 +2,7 @@
 (* Batch validation of logged cases (V direction): one TLC behaviour walks   *)
 (* the NDJSON file given in env CASES; every case is judged by the spec and  *)
 (* the verdict printed.  POSTCONDITION checks that every case was judged.    *)
-EXTENDS Naturals, Sequences, TLC, Json, IOUtils, JBinary, JFile, JWriter, JSchema, JLogical, JData, JResolve, JJson, JLoad, JForms, JSession
+EXTENDS Naturals, Sequences, TLC, Json, IOUtils, JBinary, JFile, JWriter, JSchema, JLogical, JData, JResolve, JJson, JLoad, JForms, JSession, JSuite
 
 CasesIn == ndJsonDeserialize(IOEnv.CASES)
 NCases == Len(CasesIn)
@@ -22,6 +22,11 @@ Judge(c) ==
     [] c.op = "load" -> Judge_load(c)
     [] c.op = "forms" -> Judge_forms(c)
     [] c.op = "session" -> Judge_session(c)
+    [] c.op = "t_sl_write" -> Judge_t_sl_write(c)
+    [] c.op = "t_sl_read" -> Judge_t_sl_read(c)
+    [] c.op = "t_validate" -> Judge_t_validate(c)
+    [] c.op = "t_canon" -> Judge_t_canon(c)
+    [] c.op = "t_file" -> Judge_t_file(c)
     [] c.op = "union_rt" -> Judge_union_rt(c)
     [] c.op = "generate" -> Judge_generate(c)
     [] c.op = "canon" -> Judge_canon(c)
